@@ -831,6 +831,45 @@ static void case_E(int geo, int di, int ai, int du, int su, int fmt, int nncv, i
             for (size_t c = 0; ok && c < n; ++c) { std::array<double, 8> X, Y, Z; eg.getCellCorners(int(c), X, Y, Z); const double* q = &o1[c * NQ]; for (int cc = 0; ok && cc < 8; ++cc) ok = std::fabs(X[cc] * fsu - q[11 + 3 * cc]) <= 8 * delta && std::fabs(Y[cc] * fsu - q[12 + 3 * cc]) <= 8 * delta && std::fabs(Z[cc] * fsu - q[13 + 3 * cc]) <= 8 * delta; }
             if (!ok) V("egrid-corners", "EGrid::getCellCorners (file units) differs from the grid's corners beyond float precision" + ps);
         } catch (const std::exception& e) { V("read-throws", std::string("EGrid reader throws: ") + std::string(e.what()).substr(0, 300) + ps); }
+        // E2 over the reader's own state: every sequence of <= 3 queries on ONE fresh EGrid object; the answer of every query must
+        // be the one a fresh reader gives (corner sweep of a fresh object = reference), whatever was asked before
+        if (pass == 1 && mp == 0 && nncv == 0) try {
+            std::vector<std::array<double, 24>> ref(n);
+            { Opm::EclIO::EGrid fresh(fn); for (size_t c = 0; c < n; ++c) { std::array<double, 8> X, Y, Z; fresh.getCellCorners(int(c), X, Y, Z); for (int q = 0; q < 8; ++q) { ref[c][q] = X[q]; ref[c][8 + q] = Y[q]; ref[c][16 + q] = Z[q]; } } }
+            static const char* opn[] = {"getCellCorners(first)", "getCellCorners(last)", "getXYZ_layer(0,top)", "getXYZ_layer(0,bottom)", "getXYZ_layer(nz-1,bottom)", "load_grid_data", "getXYZ_layer(nz-1,top)"};
+            const int NOP = 7;
+            auto run_seq = [&](const std::vector<int>& seq) {
+                Opm::EclIO::EGrid eg(fn);
+                std::string sname;
+                for (int o : seq) {
+                    sname += std::string(sname.empty() ? "" : " ; ") + opn[o];
+                    bool ok = true;
+                    if (o == 0 || o == 1) {
+                        const size_t c = o == 0 ? 0 : n - 1; std::array<double, 8> X, Y, Z; eg.getCellCorners(int(c), X, Y, Z);
+                        for (int q = 0; ok && q < 8; ++q) ok = X[q] == ref[c][q] && Y[q] == ref[c][8 + q] && Z[q] == ref[c][16 + q];
+                    } else if (o == 5) eg.load_grid_data();
+                    else {
+                        const int layer = (o == 2 || o == 3) ? 0 : nz - 1; const bool bottom = (o == 3 || o == 4);
+                        std::vector<std::array<float, 3>> xyz;
+                        try { xyz = eg.getXYZ_layer(layer, bottom); }
+                        catch (const std::exception& e) {       // documented refusal: no partial ZCORN load from a formatted file
+                            if (fmt && std::string(e.what()).find("partial loading") != std::string::npos) { R->count("egrid_partial_load_refused_formatted"); return; }
+                            throw;
+                        }
+                        ok = xyz.size() == size_t(nx) * ny * 4;
+                        for (int j = 0; ok && j < ny; ++j) for (int i = 0; ok && i < nx; ++i) for (int q = 0; ok && q < 4; ++q) {
+                            const size_t c = i + size_t(nx) * (j + size_t(ny) * layer); const auto& p = xyz[(size_t(j) * nx + i) * 4 + q]; const int r = q + (bottom ? 4 : 0);
+                            ok = p[0] == float(ref[c][r]) && p[1] == float(ref[c][8 + r]) && p[2] == float(ref[c][16 + r]);
+                        }
+                    }
+                    if (!ok) { V("egrid-access-order", "EGrid query " + std::string(opn[o]) + " answers differently from a fresh reader after the sequence [" + sname + "] on one object"); return; }
+                }
+                R->count("egrid_access_sequences");
+            };
+            std::vector<int> seq;
+            std::function<void()> rec = [&]() { if (!seq.empty()) run_seq(seq); if (seq.size() == 3) return; for (int o = 0; o < NOP; ++o) { seq.push_back(o); rec(); seq.pop_back(); } };
+            rec();
+        } catch (const std::exception& e) { V("egrid-access-order-throws", std::string("EGrid query sequence throws: ") + std::string(e.what()).substr(0, 300)); }
         try {
             EclipseGrid g2(fn);
             if (g2.getNXYZ() != std::array<int, 3>{nx, ny, nz}) { V("load-dims", "EclipseGrid(file) has other dimensions" + ps); continue; }
@@ -892,7 +931,7 @@ int main(int argc, char** argv) {
     const bool th = run.thorough();
     run.rule =
         "A index: all dims {1,2,3}^3 x ACTNUM (all 2^n patterns for n<=8 cells, 16 structured otherwise) x 5 construction paths, and every resetACTNUM transition p->q of those patterns; model = rank among active cells in natural order. "
-        "B forms: dims " + std::string(th ? "{1..4}^3" : "{3x3x3, 2x3x4, 4x1x2, 1x1x1}") + " x per-direction sizes {uniform,increasing,mixed} (+ per-cell DZ) x top {flat, per-column TOPS steps, planar DEPTHZ tilt, DEPTHZ saddle} x 4 unit systems, each in every applicable form of {DX/DY/DZ/TOPS, same with full TOPS, DXV/DYV/DZV/TOPS, DXV/DY/DZV/TOPS, DXV/DYV/DZV/DEPTHZ, COORD/ZCORN}: 1e-12 rel to closed forms and to the COORD/ZCORN form. P short forms: the same dims x DZ {increasing, mixed, per-cell} x top {flat, steps} x every number L=1..nz of given layers of DZ (and of DX, DY, DZ), missing layers completed by the library, against the closed form and COORD/ZCORN. "
+        "B forms: dims " + std::string(th ? "{1..4}^3" : "{3x3x3, 2x3x4, 4x1x2, 1x1x1}") + " x per-direction sizes {uniform,increasing,mixed} (+ per-cell DZ) x top {flat, per-column TOPS steps, planar DEPTHZ tilt, DEPTHZ saddle} x 4 unit systems, each in every applicable form of {DX/DY/DZ/TOPS, same with full TOPS, DXV/DYV/DZV/TOPS, DXV/DY/DZV/TOPS, DXV/DYV/DZV/DEPTHZ, COORD/ZCORN}: 1e-12 rel to closed forms and to the COORD/ZCORN form. EGRID files additionally: every sequence of <= 3 queries {getCellCorners first/last, getXYZ_layer top/bottom of first/last layer, load_grid_data} on one EGrid object must answer like a fresh reader. P short forms: the same dims x DZ {increasing, mixed, per-cell} x top {flat, steps} x every number L=1..nz of given layers of DZ (and of DX, DY, DZ), missing layers completed by the library, against the closed form and COORD/ZCORN. "
         "C cpg: dims " + std::string(th ? "{1,2,3}^3 x 3 spacings" : "{2x2x2,3x2x2,1x1x1,2x3x1} x 2 spacings") + " x 25 pillar configurations (9 parallel shears, 16 converging/diverging) x layer surfaces {horizontal, tilt, wedge, alternating (all planar), bilinear saddle (non-planar, separate :nonplanar keys)}; non-parallel pillars only horizontal x 6 fault-throw patterns x 4 unit systems: exact prism/frustum volume, positivity, 2x2x2 trilinear-subdivision additivity (1e-10 rel). "
         "D threads: every grid of B and C (incl. refined) plus 12 12x12x6 grids, OMP_NUM_THREADS in {1,2,4,16} in re-exec'ed children vs in-process, bitwise. "
         "E egrid: 4 geometries x dims x 5 ACTNUM x deck units(4) x save units(4) x {formatted,unformatted} x NNC {none, literal list, NNC keyword} x MAPAXES {none, plain, FEET, rotated METRES} x {first,second save}; distinct = distinct observation vectors / file bytes";
